@@ -166,7 +166,8 @@ func addTxSignCase(c *Ctx, txj map[string]any, key []byte, mode string, cid int6
 
 func init() {
 	register(&Suite{
-		Prop: "C01",
+		Prop:     "C01",
+		Parallel: true,
 		Gen: func(c *Ctx) {
 			r := c.R
 			n := 250
@@ -277,7 +278,8 @@ func init() {
 	})
 
 	register(&Suite{
-		Prop: "C10",
+		Prop:     "C10",
+		Parallel: true,
 		Gen: func(c *Ctx) {
 			r := c.R
 			cids := []int64{0, 1, 1 << 53}
